@@ -88,6 +88,9 @@ class Interp:
 
     def run(self, prog):
         self.prog, self.pc, self.out, self.pending = prog, 0, [], None
+        self.nrun = getattr(self, "nrun", 0) + 1
+        self.use_shared_ctx = self.nrun % 2 == 0
+        self.shared_ctx = self.jaxtyped("context")
         self.live_gens, self.gen_results, self.susp_gens = [], [], []
         while self.pc < len(self.prog):
             try:
@@ -158,7 +161,9 @@ class Interp:
                         self.observe(self.pending)
                         self.pending = None
             elif op == "enterctx":
-                with self.jaxtyped("context"):
+                # every other program re-enters ONE context object (a module-level `scope = jaxtyped("context")`
+                # used re-entrantly); the others make a fresh one per block
+                with (self.shared_ctx if self.use_shared_ctx else self.jaxtyped("context")):
                     explicit = self.enter_body()
                 if explicit:
                     self.observe("returned")
